@@ -255,6 +255,8 @@ def finish(ctx: Ctx, harness_mod) -> int:
             raise HarnessError(
                 f"violation {v['sig']} did not reproduce on replay (nondeterminism?): {v['msg']}"
             )
+        if os.environ.get("VERIF_EVIDENCE_DIR"):
+            rdir = os.path.join(os.environ["VERIF_EVIDENCE_DIR"], "replays", ctx.prop)
         os.makedirs(rdir, exist_ok=True)
         name = digest((v["sig"], v["case"]))
         path = os.path.join(rdir, name + ".json")
@@ -312,8 +314,10 @@ def write_evidence(ctx: Ctx, n_viol: int, known_sigs):
         "wall_s": round(ctx.elapsed(), 3),
         "violations": n_viol,
     }
-    os.makedirs(os.path.join(VERIF, "evidence"), exist_ok=True)
-    path = os.path.join(VERIF, "evidence", ctx.prop + ".json")
+    # mutant runs (tools/seed.py) must not overwrite the evidence of the real tree
+    edir = os.environ.get("VERIF_EVIDENCE_DIR") or os.path.join(VERIF, "evidence")
+    os.makedirs(edir, exist_ok=True)
+    path = os.path.join(edir, ctx.prop + ".json")
     tmp = path + ".tmp"
     with open(tmp, "w") as f:
         json.dump(ev, f, indent=1, sort_keys=True)
